@@ -44,8 +44,21 @@ def scope(tier):
                 filelike_via_controller=True)
 
 
+class ControllerFault(Exception):
+    """Injected failure of the underlying controller access."""
+
+
 class FakeController(object):
     """Byte array with guard zones; every access is logged."""
+
+    fail_next = False
+    faulted = False
+
+    def _fault(self):
+        if self.fail_next:
+            self.fail_next = False
+            self.faulted = True
+            raise ControllerFault("injected SCP failure")
 
     def __init__(self, length):
         self.length = length
@@ -59,6 +72,7 @@ class FakeController(object):
 
     def read(self, addr, size, x, y, p=0):
         self.log.append(("r", addr, size))
+        self._fault()
         i = self._ix(addr)
         if size < 0 or i < 0 or i + size > len(self.mem):
             return b"\xee" * max(size, 0)
@@ -66,6 +80,7 @@ class FakeController(object):
 
     def write(self, addr, data, x, y, p=0):
         self.log.append(("w", addr, len(data)))
+        self._fault()
         i = self._ix(addr)
         if i < 0 or i + len(data) > len(self.mem):
             return
@@ -90,6 +105,9 @@ def alphabet(tier):
     for a in vals:
         for b in vals:
             ops.append(("slice", a, b))
+    # the controller access fails (e.g. an SCP timeout): nothing was
+    # transferred, so the position must not move
+    ops += [("read_fail", 2), ("read_fail", "default"), ("write_fail", 2)]
     ops += [("slice_step", 2), ("index", 1), ("tell",), ("len",),
             ("address",), ("flush",), ("close",), ("with",), ("free",)]
     return ops
@@ -135,6 +153,10 @@ def apply(world, v, op, problems, known):
     world.step += 1
     log0 = len(world.ctl.log)
     name = op[0]
+    world.ctl.fail_next = world.ctl.faulted = False
+    if name in ("read_fail", "write_fail"):
+        world.ctl.fail_next = True
+        name = name[:-5]
     dead = mod.closed or world.freed
     exc = None
     res = None
@@ -174,6 +196,8 @@ def apply(world, v, op, problems, known):
             exc = e
     trunc = [w for w in wlist if issubclass(w.category, TruncationWarning)]
     accesses = world.ctl.log[log0:]
+    faulted = world.ctl.faulted
+    world.ctl.fail_next = world.ctl.faulted = False
 
     def bad(kind, msg, **extra):
         problems.append((kind, extra, "%s on view %d [%#x,%#x) offset %r: %s"
@@ -249,6 +273,16 @@ def apply(world, v, op, problems, known):
     elif name in ("read", "write") and mod.off < 0:
         # undefined for a file: only confinement (checked above)
         pass
+    elif name in ("read", "write") and faulted:
+        if not isinstance(exc, ControllerFault):
+            bad("fault_swallowed", "the controller access failed but the "
+                "operation %s" % ("raised %r" % exc if exc else
+                                  "returned %r" % (res,)), op=name)
+        elif real._offset != mod.off:
+            bad("position_after_failed_transfer",
+                "the controller access failed (nothing transferred) but the "
+                "position moved from %r to %r" % (mod.off, real._offset),
+                op=name)
     elif name == "read":
         k = op[1]
         avail = max(0, L - mod.off)
